@@ -10,7 +10,7 @@ package gostatsd
 //@ func (PipelineHandler).DispatchEvent
 //@   trusted
 //@   modifies everything
-//@   preserves lexer.Lexer, pool.MetricPool, statsd.DatagramParser, statsd.CloudHandler
+//@   preserves lexer.Lexer, pool.MetricPool, statsd.DatagramParser, statsd.CloudHandler, elems(*gostatsd.Event)
 // A completion callback of a flush (gostatsd.SendCallback) may do anything, except reach into the socket sender
 // that invokes it (ownership assumption).
 //@ functype SendCallback(errs)
@@ -361,22 +361,27 @@ package gostatsd
 
 //@ func (*Counter).AddTagsSetSource
 //@   requires c != nil
+//@   ensures  [tags] fresh(base(c.Tags)) && concatTags(c.Tags, old(c.Tags), additionalTags)
 //@   ensures  c.Source == newSource && len(c.Tags) == old(len(c.Tags)) + len(additionalTags) && c.Value == old(c.Value) && c.Timestamp == old(c.Timestamp)
 //@   modifies c.Tags, c.Source
 //@ func (*Gauge).AddTagsSetSource
 //@   requires g != nil
+//@   ensures  [tags] fresh(base(g.Tags)) && concatTags(g.Tags, old(g.Tags), additionalTags)
 //@   ensures  g.Source == newSource && len(g.Tags) == old(len(g.Tags)) + len(additionalTags) && g.Value == old(g.Value) && g.Timestamp == old(g.Timestamp)
 //@   modifies g.Tags, g.Source
 //@ func (*Timer).AddTagsSetSource
 //@   requires t != nil
+//@   ensures  [tags] fresh(base(t.Tags)) && concatTags(t.Tags, old(t.Tags), additionalTags)
 //@   ensures  t.Source == newSource && len(t.Tags) == old(len(t.Tags)) + len(additionalTags) && t.Values == old(t.Values) && t.SampledCount == old(t.SampledCount) && t.Timestamp == old(t.Timestamp)
 //@   modifies t.Tags, t.Source
 //@ func (*Set).AddTagsSetSource
 //@   requires s != nil
+//@   ensures  [tags] fresh(base(s.Tags)) && concatTags(s.Tags, old(s.Tags), additionalTags)
 //@   ensures  s.Source == newSource && len(s.Tags) == old(len(s.Tags)) + len(additionalTags) && s.Values == old(s.Values) && s.Timestamp == old(s.Timestamp)
 //@   modifies s.Tags, s.Source
 //@ func (*Event).AddTagsSetSource
 //@   requires e != nil
+//@   ensures  [tags] fresh(base(e.Tags)) && concatTags(e.Tags, old(e.Tags), additionalTags)
 //@   ensures  e.Source == newSource && len(e.Tags) == old(len(e.Tags)) + len(additionalTags) && e.Title == old(e.Title) && e.Text == old(e.Text) && e.DateHappened == old(e.DateHappened) && e.AggregationKey == old(e.AggregationKey) && e.SourceTypeName == old(e.SourceTypeName) && e.Priority == old(e.Priority) && e.AlertType == old(e.AlertType)
 //@   modifies e.Tags, e.Source
 
